@@ -276,7 +276,7 @@ def drop_empty(evs):
 
 def gen_cases(tier, rng):
     quick = tier != "thorough"
-    # (0) record-level valid sequence headers whose SPS is cut at every byte / ends in 1-bits (F-13 neighbourhood)
+    # (0) record-level valid sequence headers whose SPS is cut at every byte / ends in 1-bits (F-13 neighbourhood, repaired)
     for b in sps_tail_cases():
         yield bcast(ALL_ON, JOINS + [P(9, 0, b), P(9, 40, AVC_P)], "bcast-sps-tail")
         yield Case("c05.rtsp 0 %s" % ";".join([P(9, 0, b), P(8, 0, AAC_SH), P(9, 40, AVC_IDR)]), cls="rtsp-sps-tail")
@@ -376,8 +376,7 @@ MAX_WALL_US = [0]
 SLOW_LIMIT_US = 1000000
 
 KNOWN_SITES = {
-    # site -> finding id
-    "nazabits.(*BitReader).ReadBits32:index": "F-13",
+    # site -> finding id (F-13, nazabits.(*BitReader).ReadBits32:index, is repaired on the lal side: a panic there is a violation again)
 }
 
 
